@@ -110,8 +110,32 @@ def example_tasks():
     return out
 
 
+GEN_PRIVATE = ['r(X) :- q(X), X > 2.', 'r(X) :- q(X), not s(X).', 's(X) :- q(X), X != a.', 'r(X) :- e(X, Y), q(Y).', 's(X) :- e(X, X).',
+               'r(X) :- q(X), X = 1..3.', 's(X) :- q(X - 1).']
+GEN_PUBLIC = ['p(X) :- q(X), not r(X).', 'p(X) :- r(X).', '{p(X)} :- q(X).', 'p(X) :- q(X), X = 1..3.', 't(X) :- p(X), q(X + 1).', ':- p(X), t(X).',
+              'p(X) :- q(X), s(X).', 't(X) :- q(X), not p(X).', 'p(X) :- e(X, Y), not s(Y).', 't(X) :- r(X), not s(X).', ':- q(X), not p(X), not t(X).',
+              'p(a) :- q(a).', 't(X) :- q(X), X < b.']
+GEN_UG = 'input: q/1. input: e/2. output: p/1. output: t/1.'
+
+
+def generated_tasks(rnd, n):
+    out = []
+    for i in range(n):
+        progs = []
+        for _ in range(2):
+            rules = rnd.sample(GEN_PUBLIC, rnd.choice([1, 2, 3])) + rnd.sample(GEN_PRIVATE, rnd.choice([0, 1, 2]))
+            rnd.shuffle(rules)
+            progs.append(' '.join(rules))
+        out.append(('generated-%d' % i, 'program', progs[0], progs[1], GEN_UG))
+    return out
+
+
 def generate(tier, seed):
     items = []
+    rnd = random.Random(seed)
+    for t in generated_tasks(rnd, 30 if tier == 'quick' else 500):
+        for (s, e) in ((True, True), (False, False)) if tier == 'quick' else FLAGS:
+            items.append({'family': 'generated-tasks', 'task': t, 'flags': (s, e), 'label': '%s simplify=%s eq-break=%s' % (t[0], s, e)})
     for (s, e) in FLAGS:
         for t in REFUSABLE:
             if (s, e) in ((True, True), (False, False)):
